@@ -273,7 +273,10 @@ Print Assumptions C18_only_selected_collections_change.
 (* (2) every invalidateAllPrincipals call names ALL collections of the database -- a superset of those resynced (the
    code passes db.CollectionByID, not the selected collections: principals are never under-invalidated) -- and the end
    of a run invalidates every principal always (repaired code, sw_inval) / exactly when the run's counter is positive
-   (code as found) *)
+   (code as found).  "Always" except on a database in which no document was ever written ([r_clock] = 0) and no principal
+   document ever numbered: the
+   invalidation is stamped with the database's sequence counter, and a stamp of 0 means "not invalidated" -- there is then
+   no document whose grants a principal could be stale about *)
 Theorem C18_invalidation_covers_all_collections :
   forall (body : Type) (empty : body) (col_of : N -> N) (syncs : N -> body -> verdict) (allcols : list N) (fixed : switches)
          (ops : list (rop body)) (st0 : rst body),
@@ -286,7 +289,7 @@ Theorem C18_finish_invalidates :
   r_state st = MRunning -> forallb (fun p : N * list event => null (snd p)) (r_queue st) = true ->
   let st' := do_finish allcols fixed st pseqs in
   r_state st' = MCompleted /\
-  (sw_inval fixed = true \/ 0 < r_changed st ->
+  ((sw_inval fixed = true /\ 0 < r_clock st) \/ 0 < r_changed st ->
      r_ps st' = invalidate_all (r_ps st) /\ r_log st' = r_log st ++ [allcols] /\ r_dirty st' = false) /\
   (sw_inval fixed = false -> r_changed st = 0 -> r_ps st' = r_ps st /\ r_log st' = r_log st /\ r_dirty st' = r_dirty st).
 Proof. exact finish_invalidates. Qed.
@@ -329,7 +332,7 @@ Theorem C18_completed_run_principals_reflect_documents :
   forall (body : Type) (empty : body) (col_of : N -> N) (syncs : N -> body -> verdict) (allcols : list N) (fixed : switches),
   sw_inval fixed = true ->
   forall (ops : list (rop body)) (st0 : rst body),
-  r_state st0 = MNone -> r_dirty st0 = false ->
+  r_state st0 = MNone -> 0 < r_clock st0 ->        (* some document has been written: the sequence counter is positive *)
   let st := rrun empty col_of syncs allcols fixed st0 ops in
   r_state st = MCompleted ->
   coherent (r_docs st) (r_ps st) /\
